@@ -1,6 +1,8 @@
 (* C14 — flat-integer interface of the model for the correspondence check.
-   input : k :: N :: T :: C :: samples   (N*T*C integers, order (waveform, time, trace);
-           the value nan_code = 2^40 stands for NaN)
+   input : mode :: k :: N :: T :: C :: samples   (N*T*C integers, order (waveform, time, trace);
+           the value nan_code = 2^40 stands for NaN; N = -1: a 2-D (T, C) input)
+   mode 1 output: 1 :: N :: (trace, time, val) per waveform ++ (idx, max|.|) per (waveform, trace)
+           ++ weight per (waveform, trace), or [0]
    output: [0] when the call raises; otherwise 1 :: N :: 24 integers per waveform:
            peak_trace_idx peak_time_idx peak_val invert_sign_peak trough_time_idx trough_val
            ratio_num ratio_den tip_time_idx tip_val (trough-peak) half_post_idx half_pre_idx
@@ -36,13 +38,32 @@ Definition enc_feats (f : feats) : list Z :=
       f_hpost_val f; f_hpre_val f; d_hp_dur f; zn (f_rec f); f_rec_val f]
   ++ enc_q (d_depol f) ++ enc_q (d_repol f) ++ enc_q (d_recov f).
 
+Definition mk_input (n t c : Z) (data : list Z) : input :=
+  if n <? 0 then In2 (chunks (Z.to_nat t) (Z.to_nat c) (map dec_sample data))
+  else In3 (dec_batch (Z.to_nat n) (Z.to_nat t) (Z.to_nat c) data).
+
+Definition enc_peak (p : nat * nat * Z) : list Z :=
+  let '(tr, pk, v) := p in [zn tr; zn pk; v].
+Definition enc_pm (p : nat * Z) : list Z := [zn (fst p); snd p].
+
+(* mode 0: compute_spike_features; mode 1: find_peak ++ pick_maxima ++ weights_spk_ch.
+   n < 0 encodes a 2-D input (one waveform, no leading axis). *)
 Definition run (inp : list Z) : list Z :=
   match inp with
-  | k :: n :: t :: c :: data =>
-      match batch_features (Z.to_nat k) (dec_batch (Z.to_nat n) (Z.to_nat t) (Z.to_nat c) data) with
-      | None => [0]
-      | Some fs => 1 :: Z.of_nat (length fs) :: flat_map enc_feats fs
-      end
+  | mode :: k :: n :: t :: c :: data =>
+      let i := mk_input n t c data in
+      if mode =? 0 then
+        match compute_spike_features (Z.to_nat k) i with
+        | None => [0]
+        | Some fs => 1 :: Z.of_nat (length fs) :: flat_map enc_feats fs
+        end
+      else
+        match find_peak i, pick_maxima_pub i, weights_spk_ch (validate_arr_in i) with
+        | Some ps, Some pms, Some wts =>
+            1 :: Z.of_nat (length ps) :: flat_map enc_peak ps
+              ++ flat_map (fun pm => flat_map enc_pm pm) pms ++ flat_map (fun l => l) wts
+        | _, _, _ => [0]
+        end
   | _ => [-999]
   end.
 
